@@ -8,9 +8,26 @@ ASSUME_COMMON = [
 ]
 
 
-def wire_stages(tier, kinds):
+def randomized(stage, seed):
+    """thorough tier: the same scenarios again with random representatives of every class whose content no rule inspects
+    (ids, strings, big integers, floats, nested payloads; mbt/jsonvals.randomize, seeded by VERIF_SEED)"""
+    import copy
+    st = copy.copy(stage)
+    st.name = stage.name + '_rand'
+    st.mc = None
+    st.selftest = False
+    st.drive_env = dict(stage.drive_env or {}, VERIF_RANDOMIZE=str(seed + 1))
+    return st
+
+
+def wire_stages(tier, kinds, seed=0):
     t = 'quick' if tier == 'quick' else 'thorough'
     pre = kinds
+    st = _wire_stages(t, pre)
+    return st if tier == 'quick' else st + [randomized(st[0], seed)]
+
+
+def _wire_stages(t, pre):
     return [
         Stage('wire', mc=('WireMC', 'Wire_%s.cfg' % t), emit=('WireMC', 'Wire_%s_emit.cfg' % t), driver='wire',
               trace=('WireTrace', 'WireTrace.cfg'), scn_filter=lambda s: s['kind'].startswith(pre),
@@ -22,7 +39,7 @@ def wire_stages(tier, kinds):
 def c05(tier, seed):
     t = 'quick' if tier == 'quick' else 'thorough'
     return dict(
-        stages=wire_stages(tier, 'rt_') + [
+        stages=wire_stages(tier, 'rt_', seed) + [
             Stage('batchids', mc=('BatchIdsMC', 'BatchIds_%s.cfg' % t), emit=('BatchIdsMC', 'BatchIds_%s_emit.cfg' % t),
                   driver='batchids', trace=('BatchIdsTrace', 'BatchIdsTrace.cfg'),
                   nontrivial=lambda tr: len(tr['ev']) >= 2)],
@@ -37,7 +54,7 @@ def c05(tier, seed):
 
 def c06(tier, seed):
     t = 'quick' if tier == 'quick' else 'thorough'
-    st = wire_stages(tier, 'p_') + [
+    st = wire_stages(tier, 'p_', seed) + [
         Stage('batchids', mc=('BatchIdsMC', 'BatchIds_%s.cfg' % t), emit=('BatchIdsMC', 'BatchIds_%s_emit.cfg' % t),
               driver='batchids', trace=('BatchIdsTrace', 'BatchIdsTrace.cfg'),
               nontrivial=lambda tr: any(e['v'] == 'Identity' for e in tr['ev'])),
@@ -70,7 +87,10 @@ ASSUME_DISP = ASSUME_COMMON + [
 
 def c01(tier, seed):
     t = 'quick' if tier == 'quick' else 'thorough'
-    return dict(stages=[disp_stage('c01_' + t), disp_stage('c03')],
+    stages = [disp_stage('c01_' + t), disp_stage('c03')]
+    if tier != 'quick':
+        stages += [randomized(x, seed) for x in stages]
+    return dict(stages=stages,
                 rule='single request objects over the full product of member alphabets (jsonrpc x id x method x params), '
                      'non-object JSON values, non-JSON text classes, 5000-digit literals, batches of <= %d elements over a '
                      '12-element alphabet x {sync, async+coroutines, async+plain functions} x max_batch_size {unset,0,1,2}; '
@@ -80,7 +100,10 @@ def c01(tier, seed):
 
 def c02(tier, seed):
     t = 'quick' if tier == 'quick' else 'thorough'
-    return dict(stages=[disp_stage('c02_' + t)],
+    stages = [disp_stage('c02_' + t)]
+    if tier != 'quick':
+        stages += [randomized(x, seed) for x in stages]
+    return dict(stages=stages,
                 rule='all single requests and all batches of length 1..2 over 6 element kinds x 8 id typings (48 elements), '
                      'length 3%s over reduced alphabets, x max_batch_size at and around the length x 3 dispatcher flavours; '
                      'non-trivial = at least one method executed' % ('' if tier == 'quick' else ' and 4'),
@@ -89,7 +112,10 @@ def c02(tier, seed):
 
 def c03(tier, seed):
     t = 'quick' if tier == 'quick' else 'thorough'
-    return dict(stages=[disp_stage('c03'), disp_stage('c01_' + t)],
+    stages = [disp_stage('c03'), disp_stage('c01_' + t)]
+    if tier != 'quick':
+        stages += [randomized(x, seed) for x in stages]
+    return dict(stages=stages,
                 rule='protocol errors over 7 codes x 3 messages x 8 data shapes and 8 exception types, each as call, as '
                      'notification and inside batches, plus every rejection class; and the C01 corpus; non-trivial = a method ran',
                 assumptions=ASSUME_DISP + ['"nothing about the exception appears" is observed as: neither the marker '
